@@ -19,7 +19,7 @@ CLAIMED = {
  "C12": ("tlc-src", "TLC evaluation of the outcome contract (Totality.tla) on every outcome of the section / Yacc / lex parsers over mutated specifications, each run in a killable child process; the three parsers transcribed (Header.tla, LexParse.tla, YaccParse.tla): trace specifications predict every recorded outcome exactly (AST / lexer definition / section, all spans, errors in order), bounded models check termination and the contract on every short text", "5 C12"),
  "C13": ("tlc-ctrt", "translation validation: generated modules compiled by rustc and run next to the run-time pipeline; TLC compares lexemes, recorded action values / trees and errors with repair sets (TraceCTRT.tla)", "5 C13"),
  "C14": ("tlc-pipe", "TLC trace validation of the stutter law Pipeline.Reconstitute on full observations before / after wincode serialise + _reconstitute, all widths and both encodings", "5 C14"),
- "C15": ("tlc-pipe", "TLC: OnceInit.tla (all interleavings of first use) + trace validation of Pipeline.BuildDeterministic over K independent processes, generated parser / lexer / token-map modules (token maps predicted exactly by TokenMap.tla), and 8-thread first use of compiled generated parsers", "5 C15"),
+ "C15": ("tlc-pipe", "TLC: OnceInit.tla (all interleavings of first use; safety for any number of threads by TLAPS, OnceInitProof.tla) + trace validation of Pipeline.BuildDeterministic over K independent processes, generated parser / lexer / token-map modules (token maps predicted exactly by TokenMap.tla), and 8-thread first use of compiled generated parsers", "5 C15"),
  "C16": ("tlc-trace", "TLC evaluation of view / graph consistency on every state x token x rule of the dumped graph and table", "5 C16"),
  "C17": ("tlc-trace", "TLC comparison of FIRST / FOLLOW / nullable / path / cost queries with declarative least fixed points; rule_min_costs transcribed to characterise non-termination", "5 C17"),
  "C18": ("tlc-ctbuild", "TLC bounded model of CTBuild.tla (all histories to a depth) + trace validation of build histories run on the real builders, one process per build, against clean builds", "5 C18"),
